@@ -17,8 +17,9 @@ def noisy_world(seed, n_chroms=3):
     w = world2.rich_world(seed, n_chroms=n_chroms, genes_per_chrom=3, reads_per_t=6, hidden_cov=7, unmapped=1, extra_len=70000,
                           zoo=tuple(z for z in world2.ZOO_ALL if z not in ("intronic", "apa")))
     rng = w.rng
+    main_chroms = [c for c in w.chrom_order if c not in ("chrU", "chrE", "chrN")]     # the odd sequences of the zoo stay as they are
     # genes whose hidden isoform is a new combination of annotated introns (.nic)
-    for ci, chrom in enumerate(w.chrom_order):
+    for ci, chrom in enumerate(main_chroms):
         last = max([g.end for g in w.genes if g.chrom == chrom] + [1000])
         if last + 12000 < w.chrom_len(chrom):
             g, _ = world2.make_nic_gene(w, "N%d" % (ci + 1), chrom, last + 2500, rng.choice("+-"))
@@ -29,20 +30,20 @@ def noisy_world(seed, n_chroms=3):
                 for _ in range(8):
                     w.read_from_transcript(t, mode="full", jitter=0, polya=True, flag=rng.choice((0, 16)))
     # genes whose reads form two separate clusters (same reference isoform seen from two regions)
-    for ci, chrom in enumerate(w.chrom_order):
+    for ci, chrom in enumerate(main_chroms):
         last = max([g.end for g in w.genes if g.chrom == chrom] + [1000])
         if last + 16000 < w.chrom_len(chrom):
             world2.two_cluster_gene(w, "K%d" % (ci + 1), chrom, last + 3000, rng.choice("+-"), n_iso=1 + ci % 2)
     # annotated genes hosting unannotated same-strand loci inside a long intron; gene ids in several styles (lower-case symbols sort
     # after the generated 'novel_gene_...' ids, upper-case ones before)
-    for ci, chrom in enumerate(w.chrom_order):
+    for ci, chrom in enumerate(main_chroms):
         last = max([g.end for g in w.genes if g.chrom == chrom] + [1000]) + 3000
         for k, gid in enumerate(("slc25a%d" % (ci + 1), "ABCB%d" % (ci + 1), "zgc:%d" % (1100 + ci))[:2 + ci % 2]):
             if last + 8000 < w.chrom_len(chrom):
                 _, end = world2.intronic_novel_loci(w, gid, chrom, last, "+-"[(k + ci) % 2])
                 last = end + 3000
     # reads with a reference intron chain that end at an alternative polyA site far downstream of the annotated end
-    for ci, chrom in enumerate(w.chrom_order):
+    for ci, chrom in enumerate(main_chroms):
         last = max([g.end for g in w.genes if g.chrom == chrom] + [1000]) + 3000
         if last + 9000 < w.chrom_len(chrom):
             world2.alt_polya_locus(w, "APA%d" % (ci + 1), chrom, last, "+-"[ci % 2], ext=(1200, 700, 2000)[ci % 3])
@@ -66,6 +67,10 @@ def noisy_world(seed, n_chroms=3):
                     ex[k] = (ex[k][0], ex[k][1] + sh)
                     w.make_read(t.chrom, ex, indels=1, mismatches=2, truth={"src": t.id, "class": "noisy-junction"})
     return w
+
+
+def main_chroms_of(w):
+    return [c for c in w.chrom_order if c not in ("chrU", "chrE", "chrN")]
 
 
 def check_gtf(chk, gm, fname, fai, desc, wit):
@@ -156,7 +161,7 @@ def run(chk, scratch):
         # transcriptN.<chr>.nnic / novel_gene_<chr>_N numbers are reserved on two chromosomes
         id_map = {}
         if seed % 2 == 0 and seed < 9000:
-            for chrom in w.chrom_order[:2]:
+            for chrom in main_chroms_of(w)[:2]:
                 n = 1
                 for g in w.genes:
                     if g.chrom != chrom or not g.transcripts:
